@@ -134,10 +134,15 @@ pub fn gen_plan(hseed: u64) -> Plan {
     let graceful = r.chance(72);
     // a worker that stays unresponsive for much longer than the timeout: the coordinator has to give up on it
     let stuck = graceful && r.chance(10);
-    let has_blocker = !stuck && r.chance(55);
+    // a drain that lasts: one request in its handler for 300-600 ms, a timeout well above that, and a prober that
+    // connects every 20-50 ms from the call on
+    let probe = graceful && !stuck && r.chance(14);
+    let has_blocker = !stuck && !probe && r.chance(55);
     let timeout_ms = graceful.then(|| {
         if stuck {
             r.pick(&[300u64, 400])
+        } else if probe {
+            r.pick(&[1200u64, 1500])
         } else if has_blocker {
             r.pick(&[550u64, 600, 650, 700])
         } else {
@@ -185,6 +190,16 @@ pub fn gen_plan(hseed: u64) -> Plan {
         let at = call - r.range(20, 60);
         stall_from = Some(at);
         push(&mut conns, "stuck_worker_blocker", false, at - r.range(0, 20), vec![(at, HK::Block(b), true, None)]);
+    }
+    if probe {
+        let d = r.range(300, 600);
+        let at = call - r.range(20, 60);
+        push(&mut conns, "inflight_drain", false, at - r.range(0, 15), vec![(at, HK::Sleep(d), r.chance(50), None)]);
+        let mut off = r.range(0, 10);
+        while off <= d + 60 && conns.len() < 36 {
+            push(&mut conns, "drain_probe", false, call + off, vec![(call + off, HK::Instant, true, None)]);
+            off += r.range(20, 50);
+        }
     }
     // what a short in-flight handler may cost, so that "stall + latency" stays well inside the timeout
     let short_max = match timeout_ms {
